@@ -320,7 +320,7 @@ Proof.
   assert (Hp : pos_eq v v2).
   { unfold v2, v1. destruct (kind =? KPrevote); repeat split. }
   set (s1 := put_view s vid v2).
-  set (s2 := set_rounds s1 _).
+  set (s2 := log_w (set_rounds s1 _) _).
   assert (F : frame_eq s s2).
   { eapply frame_eq_trans; [apply frame_put_view; exact Hp|apply frame_set_rounds]. }
   pose proof (cinv_frame _ _ _ _ F H) as H2. pose proof (adv_frame _ _ F) as A2.
@@ -419,7 +419,7 @@ Proof.
   set (s1 := put_view s vid _) in *.
   assert (A1 : adv s s1).
   { unfold adv. rewrite E1, E2, E3, E4, E5. repeat split; try lia; auto. apply rs_refl. }
-  set (s2 := set_rounds s1 _).
+  set (s2 := log_w (set_rounds s1 _) _).
   assert (H2 : cinv ih ivs s2) by (eapply cinv_frame; [apply frame_set_rounds|exact H1]).
   assert (A2 : adv s s2) by exact A1.
   destruct (negb _); [intros E; inversion E; subst; split; assumption|].
